@@ -288,6 +288,9 @@ def extract(unit, enums, sigs):
     # member access
     if cls:
         funcs, datas = class_members(unit['cls_file'], unit.get('cls_decl', cls))
+        # declaration keywords are never member names (a 'static const T x;' line must not make 'const' a data member)
+        KW = {'const', 'static', 'mutable', 'volatile', 'unsigned', 'signed', 'inline', 'virtual', 'explicit', 'typename', 'struct', 'class', 'enum'}
+        funcs = [f for f in funcs if f not in KW]; datas = [d for d in datas if d not in KW]
         datas = set(datas) | set(unit.get('inherited_members', ()))
         funcs = set(funcs) | set(unit.get('inherited_methods', ()))
         toks = r_members(ctx, toks, cls, funcs, datas)
